@@ -332,11 +332,13 @@ func main() {
 		fail("%v", err)
 	}
 	genConsts()
-	genFuncs()
-	genKeyClasses()
-	genRoutes()
-	genLocks()
+	for _, g := range generators {
+		g()
+	}
 }
+
+// generators: further translators, each registered from its own file's init().
+var generators []func()
 
 func writeIfChanged(path, content string) {
 	old, err := os.ReadFile(path)
